@@ -109,6 +109,7 @@ type Scenario struct {
 	SlowReturn       int       `json:"slow_return,omitempty"`       // transport Write returns late (see memnet.Conn.SlowReturn)
 	CloseStyle       string    `json:"close_style,omitempty"`       // error after a local Close: "" memnet's own, "pipe" io.ErrClosedPipe (net.Pipe), "net" *net.OpError{net.ErrClosed} (TCP)
 	CloseLinger      int       `json:"close_linger,omitempty"`      // transport Close returns late (see memnet.Conn.CloseLinger)
+	PingDelayMs      int       `json:"ping_delay_ms,omitempty"`     // the broker answers PINGREQ this much later
 	OnErrorPublishes bool      `json:"onerror_publishes,omitempty"` // the OnError callback publishes a status message through the client
 	Pre              []Step    `json:"pre,omitempty"`               // submitted before Connect
 	Steps            []Step    `json:"steps,omitempty"`             // submitted after Connect returned
@@ -337,6 +338,7 @@ func (d *Dialer) DialContext(ctx context.Context) (*mqtt.BaseClient, error) {
 func Exec(sc *Scenario) *Run {
 	tr := memnet.NewTrace()
 	br := NewBroker(tr, sc.Cfg, sc.Faults)
+	br.PingDelay = time.Duration(sc.PingDelayMs) * time.Millisecond
 	br.OnConnect = sc.OnConnect
 	r := &Run{Sc: sc, Tr: tr, Br: br}
 	d := &Dialer{r: r, fail: map[int]bool{}}
@@ -576,6 +578,13 @@ func Exec(sc *Scenario) *Run {
 				}
 				tr.WaitFor(Watchdog/4, func() bool { return atomic.LoadInt32(&rl.switches) > n0 })
 			}
+		case "extrapingresp":
+			// a PINGRESP nobody asked for (a duplicate, or the late answer to a ping given up long ago)
+			tr.Mu.Lock()
+			if br.Cur != nil && br.Cur.OpenLocked() {
+				br.Cur.SendLocked(mqttref.EncPingResp(), "unsolicited PINGRESP")
+			}
+			tr.Mu.Unlock()
 		case "pingok":
 			tr.Mu.Lock()
 			br.SilentPingOnly = false
